@@ -861,6 +861,12 @@ fn main() {
         // seeks by uncompressed offset through a gzi: mid-block, first byte of a block, end, back
         cases.push(make_case(&[3, 5, 2], true, Corrupt::None, vec![Read(1), SeekIndex(4), Read(2), SeekIndex(3), Read(9), SeekIndex(10), Read(1), SeekIndex(0), ReadToEnd]));
         cases.push(make_case(&[3, 0, 4], false, Corrupt::None, vec![SeekIndex(3), Read(2), SeekIndex(7), Read(1), SeekIndex(2), ReadToEnd]));
+        // a member with the largest uncompressed size the format allows (65536 bytes; other tools write it,
+        // noodles' writers stage at most 65495): seeks into it, to its last byte and past it
+        cases.push(make_case(&[65536, 5], true, Corrupt::None, vec![Read(3), Seek(0, 100), Read(4), Seek(0, 65535), Read(3), Seek(1, 2), ReadToEnd]));
+        if ctx.thorough() {
+            cases.push(make_case(&[4, 65536], true, Corrupt::None, vec![SeekIndex(4 + 65535), Read(2), SeekIndex(300), Read(2), Seek(1, 40000), Read(1)]));
+        }
         let n_plain = cases.len();
         for c in [Corrupt::Crc(1), Corrupt::Deflate(1), Corrupt::Magic(1), Corrupt::Crc(0), Corrupt::Magic(2)] {
             cases.push(make_case(&[3, 5, 2], true, c, vec![ReadToEnd]));
